@@ -55,6 +55,17 @@ type FuncSpec struct {
 	Iface     string // for interface method contracts: full interface type name
 	Method    string
 	Transparent bool
+	GhostSets []*GhostSet
+}
+
+// GhostSet is a ghost assignment executed at every return of the function
+// (ghost code at the end of the body; callers see it through ensures).
+type GhostSet struct {
+	Target *SExpr
+	Value  *SExpr
+	Src    string
+	File   string
+	Line   int
 }
 
 type LetSpec struct {
@@ -151,7 +162,7 @@ var subKeywords = map[string]bool{
 	"requires": true, "ensures": true, "modifies": true, "loop": true, "protects": true,
 	"invariant": true, "assume": true, "inline": true, "maypanic": true, "nosafety": true,
 	"params": true, "results": true, "let": true, "letold": true, "forall": true, "note": true, "property": true,
-	"selfcomp": true, "held": true, "transparent": true,
+	"selfcomp": true, "held": true, "transparent": true, "ghostset": true,
 }
 
 type rawDirective struct {
@@ -613,6 +624,20 @@ func parseFuncSub(fs *FuncSpec, d rawDirective, path string) error {
 		}
 	case "held":
 		fs.LockHeld = append(fs.LockHeld, strings.TrimSpace(d.text))
+	case "ghostset":
+		j := strings.Index(d.text, "=")
+		if j < 0 {
+			return fmt.Errorf("%s: ghostset target = expr", where)
+		}
+		te, err := parseSpecExpr(strings.TrimSpace(d.text[:j]))
+		if err != nil {
+			return fmt.Errorf("%s: %v", where, err)
+		}
+		ve, err := parseSpecExpr(strings.TrimSpace(d.text[j+1:]))
+		if err != nil {
+			return fmt.Errorf("%s: %v", where, err)
+		}
+		fs.GhostSets = append(fs.GhostSets, &GhostSet{Target: te, Value: ve, Src: d.text, File: path, Line: d.line})
 	default:
 		return fmt.Errorf("%s: %q not allowed in func", where, d.kw)
 	}
